@@ -116,7 +116,7 @@ func init() {
 			return out
 		}
 		mk := func(id string, evs []map[string]interface{}, exit int) protoRun {
-			return protoRun{ID: id, Args: args, Events: evs, Exit: exit, Stdout: fr.Stdout}
+			return protoRun{ID: id, Args: args, Events: evs, Exit: exit, Stdout: fr.Stdout, Stderr: fr.Stderr}
 		}
 		dropped := cloneEv()
 		for i, ev := range dropped {
